@@ -138,6 +138,9 @@ def run(facts, rep, ctx):
         return
     em = emission(nv, out_root, idx, loops)
     header = [e for e in em if e["loop"] is None and e["kind"] in ("int", "byte", "pad")]
+    # bytes put into the header region some other way (`extend(RESERVED.iter())`): the header's size is not known
+    first_loop = min([e["order"] for e in em if e["loop"] is not None] or [1 << 30])
+    header_gap = [e for e in em if e["loop"] is None and e["order"] < first_loop and e["kind"] not in ("int", "byte", "pad")]
     record = [e for e in em if e["loop"] is not None]
     tail = [e for e in em if e["loop"] is None and e["kind"] == "bytes"]
     # ---- parser side ----------------------------------------------------------------------------
@@ -170,7 +173,7 @@ def run(facts, rep, ctx):
         magic_w = header[0]["value"]
         pad = sum(e["width"] or 0 for e in header[2:])
         hsize = header[0]["width"] + header[1]["width"] + pad
-        if any(e["width"] is None for e in header[2:]):
+        if any(e["width"] is None for e in header[2:]) or header_gap:
             hsize = None
         pmagic = None
         for p in (enum_paths(par) if True else []):
@@ -328,7 +331,7 @@ def run(facts, rep, ctx):
             rep.violation(R2, ser.name, "record-size", "header length counts %s bytes per entry, builder appends %s, parser consumes %s" % (coeff, per_entry, stride), wh)
         if hsize is not None and base == hsize:
             rep.ok(R2, {"base_header": base})
-        elif hsize is None:
+        elif hsize is None or any(e.get("kind") not in ("int", "byte", "pad") or e.get("width") is None for e in header):
             rep.inconc(R2, "size of the fixed header emitted by the builder not recognised")
         else:
             rep.violation(R2, ser.name, "base-header", "header length assumes a %s-byte base header, builder emits %s" % (base, hsize), wh)
@@ -439,6 +442,7 @@ def run(facts, rep, ctx):
         return
     R6 = rep.rule("R15.6", "an entry is rejected exactly when address + size exceeds the image (empty files at the very end are accepted)", floor=1)
     bound_decision(facts, rep, R6, par, ppaths)
+    placement_rule(facts, rep, R5, par, ppaths)
     best = None
     sliced = None
     for p in ppaths:
@@ -540,6 +544,45 @@ def run(facts, rep, ctx):
         rep.ok(R5, {"result": "IndexMap filled in record order with (name, body)"})
     else:
         rep.violation(R5, par.name, "result", "result type %s / inserted (%s, %s)" % (rt[:50], fmt(k)[:30], fmt(v)[:30]), pw)
+
+
+def placement_rule(facts, rep, R5, par, ppaths):
+    """The parser goes by the recorded addresses: an image is not rejected for *where* its names lie relative to its
+    bodies.  Witness: an error return guarded by a comparison of a record's name address with a quantity computed
+    from file addresses (directly, or through a closure that reads them), or the other way round -- an image with the
+    names behind the bodies conforms and is refused."""
+    def closure_fields(t):
+        out = set()
+        for x in walk(t):
+            if x[0] == "agg" and x[1] == "closure" and x[2] in facts.bodies:
+                cb = facts.bodies[x[2]]
+                for blk in cb.blocks:
+                    for st in blk["stmts"]:
+                        if st["k"] != "assign":
+                            continue
+                        for y in walk(cb.term_of_rvalue(st["rv"])):
+                            if y[0] == "field" and isinstance(y[2], str):
+                                out.add(y[2])
+        return out
+    NA, FA = "name_address", "file_address"
+    for p in ppaths:
+        if p.end != "ret" or is_err_term(p.ret) is not True:
+            continue
+        for (bb, term, vals, neg, dty) in p.conds:
+            if dty != "bool" or strip_refs(term)[0] != "bin" or strip_refs(term)[1] not in ("Lt", "Le", "Gt", "Ge"):
+                continue
+            t = strip_refs(term)
+            sides = []
+            for s_ in (t[2], t[3]):
+                direct = {x[2] for x in walk(s_) if x[0] == "field" and isinstance(x[2], str) and x[2] in (NA, FA)}
+                sides.append((direct, closure_fields(s_) & {NA, FA}))
+            for i in (0, 1):
+                mine, other = sides[i], sides[1 - i]
+                if mine[0] == {NA} and not mine[1] and FA in (other[0] | other[1]) and NA not in (other[0] | other[1]):
+                    rep.violation(R5, par.name, "placement-check",
+                                  "an error return is guarded by %s: a record's name address is compared with a bound computed from the file addresses -- a conforming image that stores its names behind (or between) the bodies is rejected, the property asks for the same files wherever names and bodies are placed" % fmt(term)[:110],
+                                  "%s:%s" % (par.file, par.line))
+                    return
 
 
 def bound_decision(facts, rep, R6, par, ppaths):
